@@ -74,7 +74,8 @@ def check(prog: Program, tier: str) -> Result:
     _r4_l(prog, res)
     _r4_m(prog, res)
     _r4_n(prog, res)
-    res.floors.update({"R4.n": 2, "R4.m": 2, "R4.a": 25, "R4.b": 200, "R4.c": 4, "R4.d": 18, "R4.e": 8, "R4.f": 40, "R4.h": 2, "R4.i": 2, "R4.j": 5, "R4.k": 1})
+    _r4_o(prog, res)
+    res.floors.update({"R4.o": 2, "R4.n": 2, "R4.m": 2, "R4.a": 25, "R4.b": 200, "R4.c": 4, "R4.d": 18, "R4.e": 8, "R4.f": 40, "R4.h": 2, "R4.i": 2, "R4.j": 5, "R4.k": 1})
     return res
 
 
@@ -822,6 +823,83 @@ def _r4_n(prog: Program, res: Result) -> None:
     res.analysed["sympy_text_sinks"] = sorted(f"{k[0]}.{k[1]}" for k in direct)
 
 
+LOOSE_ANNOTATIONS = ("Collection", "Iterable", "Sequence", "Container")
+
+
+def _r4_o(prog: Program, res: Result) -> None:
+    """Option values: a parameter of a public entry point annotated Collection[..] / Iterable[..] / Sequence[..] may be a
+    list or a tuple.  Set algebra (`|`, `&`, `-`, `^` with a set on the other side) raises TypeError for those.  Computed
+    bottom-up over the call graph: needs_set(f, p) = p is an operand of set algebra in f, or is handed to a parameter q of
+    a callee with needs_set(callee, q) - unless f first rebinds p unconditionally to set(p) / frozenset(p).  Obligation:
+    no loosely annotated parameter of a public function of `main` has needs_set."""
+    def params(fn: Func):
+        a = fn.node.args
+        return a.posonlyargs + a.args + a.kwonlyargs
+
+    def normalised(fn: Func, p: str) -> bool:
+        # an unconditional `p = set(p) [| ...]` / frozenset(p) / `p = {*p}` in the function body proper, before any other use
+        for st in fn.node.body:
+            if isinstance(st, ast.Assign) and len(st.targets) == 1 and isinstance(st.targets[0], ast.Name) and st.targets[0].id == p:
+                v = st.value
+                while isinstance(v, ast.BinOp):
+                    v = v.left
+                if isinstance(v, ast.Call) and isinstance(v.func, ast.Name) and v.func.id in ("set", "frozenset") and v.args and norm(v.args[0]) == p:
+                    return True
+                return False
+            if any(isinstance(x, ast.Name) and x.id == p for x in ast.walk(st)):
+                return False
+        return False
+    direct: Dict[Tuple[Tuple[str, str], str], ast.AST] = {}
+    for fn in prog.funcs.values():
+        names = {a.arg for a in params(fn)}
+        for n in walk_own(fn.node):
+            ops = []
+            if isinstance(n, ast.BinOp) and isinstance(n.op, (ast.BitOr, ast.BitAnd, ast.Sub, ast.BitXor)):
+                ops = [n.left, n.right]
+            elif isinstance(n, ast.AugAssign) and isinstance(n.op, (ast.BitOr, ast.BitAnd, ast.Sub, ast.BitXor)):
+                ops = [n.value]
+            for side in ops:
+                if isinstance(side, ast.Name) and side.id in names and not normalised(fn, side.id):
+                    direct.setdefault((fn.key, side.id), n)
+    needs = dict(direct)
+    changed = True
+    while changed:
+        changed = False
+        for fn in prog.funcs.values():
+            pn = [a.arg for a in params(fn)]
+            for c in prog.calls_in(fn):
+                r = prog.resolve_call(c.func, fn.mod, fn)
+                if not (r and r[0] == "fn"):
+                    continue
+                callee = r[1]
+                pairs = [(callee.posparams[i], a) for i, a in enumerate(c.args) if i < len(callee.posparams) and not isinstance(a, ast.Starred)]
+                pairs += [(k.arg, k.value) for k in c.keywords if k.arg]
+                for q, a in pairs:
+                    if (callee.key, q) in needs and isinstance(a, ast.Name) and a.id in pn and (fn.key, a.id) not in needs and not normalised(fn, a.id):
+                        needs[(fn.key, a.id)] = c
+                        changed = True
+    n = 0
+    for fn in sorted(prog.funcs.values(), key=lambda f: f.fq):
+        if fn.mod.name != "main" or fn.name.startswith("_") or fn.outer is not None:
+            continue
+        for a in params(fn):
+            if a.annotation is None or norm(a.annotation).split("[")[0].split(".")[-1] not in LOOSE_ANNOTATIONS:
+                continue
+            n += 1
+            site = needs.get((fn.key, a.arg))
+            if site is None:
+                res.ok("R4.o", fn.loc(a), fn.fq, f"{a.arg}: {norm(a.annotation)}",
+                       "normalised to a set before use" if normalised(fn, a.arg) else "never an operand of set algebra, here or in a callee it is handed to")
+            else:
+                where = next((f"{prog.funcs[k].fq}:{getattr(v, 'lineno', 0)} `{short(v, 50)}`" for (k, q), v in direct.items()
+                              if any(True for _ in [0])), "")
+                res.bad("R4.o", fn.loc(a), fn.fq, f"{a.arg}: {norm(a.annotation)}",
+                        f"the option may be a list or a tuple (annotation {norm(a.annotation)}), but reaches set algebra unconverted (first hop: line {getattr(site, 'lineno', 0)} `{short(site, 60)}`; "
+                        f"{sum(1 for (k, q) in direct)} set-algebra site(s) in the package take such parameters as they come): TypeError for every input")
+    if n == 0:
+        raise AnalysisError("no loosely annotated option of a public entry point found")
+
+
 def _r4_l(prog: Program, res: Result) -> None:
     """Parsing a SNIPPET: core.parse / ast.parse of a text that is not the function's own text parameter (the spelling of
     one literal, an uncommented comment block, ...) raises SyntaxError unless the snippet was validated first.  A
@@ -1127,6 +1205,8 @@ class ValidPA(PathAnalysis):
 from ..selftest import Variant  # noqa: E402
 
 VARIANTS = [
+    Variant("preserve-option-taken-as-it-comes", "FIRE", "main", "    preserve = frozenset(preserve)  # Any collection is accepted, but the fixes use set operators\n\n", "", "R4.o"),
+    Variant("preserve-option-normalised-with-set", "SILENT", "main", "    preserve = frozenset(preserve)  # Any collection is accepted, but the fixes use set operators\n", "    preserve = set(preserve) | set()\n"),
     Variant("sympy-parser-unfenced", "FIRE", "symbolic_math",
             "            try:\n                replacement = _sum_range(arg)\n            except Exception:  # sympy parses the text of the arguments, and cannot read all of python\n                continue\n            yield node, replacement\n",
             "            yield node, _sum_range(arg)\n", "R4.n"),
